@@ -11,6 +11,7 @@ def component (name : String) : Option (String → String) :=
   match name with
   | "dlqwindow" => some dlqLine
   | "funnel" => some funnelLine
+  | "funnelmon" => some funnelMonLine
   | _ => none
 
 partial def loop (h : IO.FS.Stream) (out : IO.FS.Stream) (f : String → String) : IO Unit := do
